@@ -224,4 +224,45 @@ def r_idioms(ctx):
     repo_idioms(ctx, "C16.R8", ('http_server',))
 
 
-RULES = [("C16.R1", r1), ("C16.R2", r2), ("C16.R3", r3), ("C16.R4", r4), ("C16.R5", r5), ("C16.R6", r6), ("C16.R7", r7), ("C16.R8", r_idioms)]
+def r9(ctx):
+    """'the first registered matching route' is per router: the table a router matches against holds exactly the routes
+    registered with *that* router.  The table and each of its per-method lists must be fresh objects built in __init__
+    (a literal / constructor call evaluated per instance), not shared through a class attribute, a module constant, a default
+    argument or a shallow copy of one."""
+    init = ctx.fn("http_server:Router.__init__")
+    stores = [n for n in walk_own(init.node) if isinstance(n, ast.Assign) and any(norm(t) == "self.route_table" for t in n.targets)]
+    if not ctx.require("C16.R9", init, "self.route_table = ... in Router.__init__", len(stores), 1):
+        return
+    v = stores[0].value
+
+    def fresh(e):
+        """an expression that builds a new, unshared container every time it is evaluated"""
+        if isinstance(e, ast.Dict):
+            return all(fresh_or_scalar(x) for x in e.values)
+        if isinstance(e, (ast.List, ast.Set)):
+            return all(fresh_or_scalar(x) for x in e.elts)
+        if isinstance(e, (ast.DictComp,)):
+            return fresh_or_scalar(e.value)
+        if isinstance(e, (ast.ListComp, ast.SetComp)):
+            return fresh_or_scalar(e.elt)
+        if isinstance(e, ast.Call) and norm(e.func) in ("dict", "list", "set", "defaultdict", "collections.defaultdict", "OrderedDict", "collections.OrderedDict"):
+            if norm(e.func) in ("defaultdict", "collections.defaultdict"):
+                return all(isinstance(a, ast.Name) and a.id in ("list", "dict", "set") for a in e.args) and not e.keywords
+            return not e.args and all(fresh_or_scalar(k.value) for k in e.keywords)
+        if isinstance(e, ast.Call) and norm(e.func) in ("copy.deepcopy", "deepcopy"):
+            return True
+        return False
+
+    def fresh_or_scalar(e):
+        return fresh(e) or (isinstance(e, ast.Constant) and not isinstance(e.value, (bytes,)) ) or isinstance(e, ast.Tuple) and all(fresh_or_scalar(x) for x in e.elts)
+    ctx.check(fresh(v), "C16.R9", init, "every router builds its own route table and its own per-method lists",
+              "lists shared between routers make every router match the routes of all of them, in global registration order", witness=norm(v)[:120], line=stores[0].lineno)
+    # nobody else replaces the table
+    from engine.defuse import attr_accesses
+    writers = sorted({a.fi.qual for a in attr_accesses(ctx.repo, "route_table") if a.kind in ("store", "aug") and a.fi.module.name == "http_server"})
+    ctx.check(writers == [init.qual], "C16.R9", init, "the route table is bound once, in Router.__init__", witness=writers)
+
+
+EXPLANATION = EXPLANATION + " (R9) every Router builds its own route table and per-method lists in __init__ (fresh literals / constructor calls, no shared class- or module-level object, no shallow copy) and nobody rebinds it."
+
+RULES = [("C16.R1", r1), ("C16.R2", r2), ("C16.R3", r3), ("C16.R4", r4), ("C16.R5", r5), ("C16.R6", r6), ("C16.R7", r7), ("C16.R8", r_idioms), ("C16.R9", r9)]
